@@ -264,6 +264,13 @@ impl RefModel {
     ///  EMA [ema] · TR [tr] · ATR [atr] · MACD [macd, signal, hist] · KC [average, atr] · CE [max high, min low, atr]
     ///  RSI [rsi] · FAST [k] · SLOW [d] · ROC [roc] · ER [er] · PPO [ppo, signal, hist] · CCI [cci] · MFI [mfi] · OBV [obv]
     pub fn push(&mut self, x: &In) -> RefOut {
+        self.push_opt(x, true)
+    }
+
+    /// As `push`; with `evaluate == false` only the reference's own state (windows, carried
+    /// recursions) is advanced and the O(n) window statistics are not computed (soak runs judge
+    /// sampled steps only). The returned components are then meaningless.
+    pub fn push_opt(&mut self, x: &In, evaluate: bool) -> RefOut {
         use Kind::*;
         self.t += 1;
         let t = self.t;
@@ -321,6 +328,9 @@ impl RefModel {
             while self.wtp.len() > n + 1 {
                 self.wtp.pop_front();
             }
+        }
+        if !evaluate && matches!(kind, Sma | Wma | Sd | Mad | Min | Max | Bb | Cci) {
+            return out;
         }
         match kind {
             Sma => out.v[0] = w_mean(self.window()),
@@ -533,6 +543,9 @@ impl RefModel {
                     let rf = raw.abs().to_f64();
                     if sign != 0 && rf > self.max_flow {
                         self.max_flow = rf;
+                    }
+                    if !evaluate {
+                        return out;
                     }
                     let mut pmf = Dd::ZERO;
                     let mut nmf = Dd::ZERO;
